@@ -26,6 +26,9 @@ func genC17(seed uint64, tier string) *Plan {
 		// the memstore while the queries run, so that disk-only and
 		// memstore-inclusive queries differ (and may share one scan)
 		p.Cfg.Extra = map[string]int64{"noTimer": 1}
+		if r.Bool(0.5) {
+			p.Cfg.Extra["stagger"] = 1
+		}
 		streams := streamsOf(p.Tables)
 		for i, n := 0, r.Range(1, 6); i < n; i++ {
 			pt := genPoint(r, u, p.Tables, PointOpts{SpanNanos: span, Streams: streams, NoOdd: true}, pts, 300+i)
@@ -108,8 +111,10 @@ func execC17(e *Env, p *Plan) error {
 			e.Sleep(time.Millisecond)
 			// late points stay in the memstore (tables without flush timer)
 			var qs []Op
+			var latePts []*Point
 			for j := range op.Sub {
 				if op.Sub[j].K == "late" {
+					latePts = append(latePts, op.Sub[j].P)
 					time.Sleep(time.Microsecond)
 					if err := n.Insert(op.Sub[j].P); err != nil {
 						return err
@@ -127,7 +132,27 @@ func execC17(e *Env, p *Plan) error {
 			// plan every query twice at the same simulated instant
 			solo := make([]*Prepared, k)
 			conc := make([]*Prepared, k)
+			stagger := p.Cfg.Extra["stagger"] > 0 && k >= 2
 			for j := range op.Sub {
+				if stagger && j == k/2 {
+					// the second half of the batch is planned after a period
+					// boundary has passed and a point has arrived in the new
+					// newest period: the queries of one scan then have different
+					// windows
+					res := p.Tables[0].ResNanos
+					alignClock(e, int64(time.Millisecond), res)
+					now := time.Now().UnixNano()
+					for li, pt := range latePts {
+						cp := *pt
+						cp.TS = now - BaseNanos - int64(li)
+						time.Sleep(time.Microsecond)
+						if err := n.Insert(&cp); err != nil {
+							return err
+						}
+					}
+					e.Settle()
+					e.Count("probe.staggered-planning")
+				}
 				solo[j] = n.Prepare(op.Sub[j].S, op.Sub[j].B)
 				conc[j] = n.Prepare(op.Sub[j].S, op.Sub[j].B)
 			}
